@@ -425,6 +425,9 @@ func registerType(tov reflect.Type) error {
 			if n > len(packet) && itemType.Size() > 0 {
 				return nil, nil, fmt.Errorf("incorrect data length %d", n)
 			}
+			if err := allocGuard(itemType, n, packet); err != nil {
+				return nil, nil, err
+			}
 
 			x := reflect.MakeSlice(tov, n, n)
 			if value == nil {
@@ -502,6 +505,11 @@ func registerType(tov reflect.Type) error {
 			if value == nil {
 				x := reflect.Indirect(reflect.New(tov))
 				value = &x
+			}
+
+			if itemType.Size() == 0 {
+				// zero-size items take no bytes on the wire and have a single value
+				return value, packet, nil
 			}
 
 			if state.child == nil {
@@ -605,6 +613,15 @@ func registerType(tov reflect.Type) error {
 
 			n := int(binary.BigEndian.Uint32(packet[:4]))
 			packet = packet[4:]
+
+			// validate the declared count before anything is allocated for it
+			if zeroSize := typeKey.Size() == 0 && typeValue.Size() == 0; zeroSize {
+				if n > 1 {
+					return nil, nil, fmt.Errorf("incorrect data length")
+				}
+			} else if n > len(packet) {
+				return nil, nil, fmt.Errorf("incorrect data length")
+			}
 
 			x := reflect.MakeMapWithSize(tov, n)
 			if value == nil {
